@@ -119,7 +119,7 @@ theorem exec_structural_locked (run : ProbeRunner) (w : World) (hl : w.isLocked 
     simp only [exec, lockedClass, opNewEntity, bind, M.bind, hpre, newEntityCore_locked w hl]
   | new0 => simp only [exec, lockedClass, opNewEntity0_locked run w hl]
   | add p e ids vals =>
-    have hpre : preCheck p ids [] w = .ok () w := by cases p <;> rfl
+    have hpre : ∀ (q : Path), preCheck q ids [] w = .ok () w := fun q => preCheck_nil_apply q ids w
     cases ha : w.alive e <;> cases p <;>
       simp [exec, lockedClass, opAdd, bind, M.bind, M.get, M.assert, ha, hpre, addCore_locked w hl]
   | rem p e ids =>
